@@ -1,16 +1,52 @@
-"""C09 at the level of interpreter values: key equality and key hashing of core.rs (ObjKey)."""
+"""C09 at the level of interpreter values: key validity, key equality and key hashing of core.rs (ObjKey), verbatim."""
 from assemble import Item
 
 NAME = 'keys'
 PRELUDE = ['base', 'bigint', 'float', 'rational', 'opaque']
 SPECS = ['keys.rs', 'realarith.rs']
-DEPS = ['nint', 'nnum', 'nnumcmp', 'coretypes']
+DEPS = ['nint', 'nnum', 'nnumcmp', 'coretypes', 'objctors']
 NEEDS_EXPANDED = True
 
 C = 'src/core.rs'
+NOISO = '#[verifier::loop_isolation(false)]'
+SLICE_IT = 'it.seq().len() == %(v)s@.len() && (forall|i: int| 0 <= i < %(v)s@.len() ==> *it.seq()[i] == %(v)s@[i])'
+
 ITEMS = [
+    # `a.iter().zip(b.iter()).all(..)`: Iterator::all has no vstd specification; the contract is assumed (trusted), its meaning is key_eq on sequences
     Item(id='total_eq_of_key_seqs', source=C, locator='fn total_eq_of_key_seqs', no_body_check=True,
          ensures=[('assumed_elementwise_key_equality', 'r == key_seq_eq(*a, *b)')], props=[]),
     Item(id='total_eq_of_keys', source=C, locator='fn total_eq_of_keys',
          ensures=[('key_equality', 'r == key_eq(*a, *b)')], props=['C09']),
+    Item(id='check_if_valid_key', source=C, locator='fn check_if_valid_key',
+         ensures=[('ok_exactly_for_hashable_values', 'r is Ok <==> hashable(*obj)'), ('otherwise_a_type_error', 'r is Err ==> err_class(r->Err_0) == ErrClass::Type')],
+         decreases='*obj', attrs=[NOISO],
+         loops={'list': dict(head=r'xs\.iter\(\)', iter_name='it', invariant=[('elements_checked_so_far', SLICE_IT % dict(v='xs') + ' && (forall|i: int| 0 <= i < it.index@ ==> hashable(#[trigger] xs@[i]))')]),
+                'dict': dict(head=r'd\.values\(\)', iter_name='it', invariant=[('values_checked_so_far', 'it.iter.obeys_prophetic_iter_laws() && (forall|i: int| 0 <= i < it.index@ ==> hashable(*#[trigger] it.seq()[i]))')])},
+         hints=[('loop[list]:body_start', 'proof { let k = it.index@; assert(*e == xs@[k]); if !hashable(*e) { assert(!hashable(*obj)); } }', 'at'),
+                ('loop[dict]:body_start', 'proof { let k = it.index@; assert(e == it.seq()[k]); if !hashable(*e) { assert(!dict_values_hashable(**d)); } axiom_dict_value_smaller(*obj, *e); }', 'at')],
+         props=['C09']),
+    Item(id='to_key', source=C, locator='fn to_key',
+         ensures=[('a_key_is_always_hashable', 'r is Ok ==> hashable(r->Ok_0.0)'),
+                  ('ok_exactly_for_hashable_values', '!(obj is Seq && obj->Seq_0 is Stream) ==> (r is Ok <==> hashable(obj))'),
+                  ('the_key_is_the_value', '(r is Ok && !(obj is Seq && obj->Seq_0 is Stream)) ==> r->Ok_0.0 == obj')],
+         decreases='(if obj is Seq && obj->Seq_0 is Stream { 1int } else { 0int })',
+         props=['C09']),
+    # equal keys hash equally: the words written are key_words(a), a function of the key's value (lemma_key_words_of_equal_keys); the panics
+    # "Attempting to hash ..." are unreachable for values accepted by to_key
+    Item(id='total_hash_of_key', source=C, locator='fn total_hash_of_key',
+         requires=[('only_values_accepted_by_to_key_are_hashed', 'hashable(*a)')],
+         ensures=[('writes_the_words_of_the_key_value', 'dict_free(*a) ==> final(state).hlog() == old(state).hlog() + key_words(*a)')],
+         decreases='*a', attrs=[NOISO],
+         subst=[(r'std::collections::hash_map::DefaultHasher::new\(\)', 'DefaultHasher::new()', 'path of std\'s hasher replaced by the prelude stub of the same name')],
+         hints=[(r'match a \{\s+Obj::Null', 'let ghost a0 = *a; let ghost log0 = state.hlog();', 'before'),
+                ('loop[list]:body_start', 'proof { let k = it.index@; assert(*e == s@[k]); assert(hashable(s@[k])); assert(dict_free(a0) ==> dict_free(s@[k])); }', 'at'),
+                ('loop[dict]:body_start', 'proof { let j = it.index@; assert(0 <= j < it.seq().len()); assert(k == it.seq()[j].0); assert(v == it.seq()[j].1); axiom_dict_key_smaller(a0, *k); axiom_dict_value_smaller(a0, *v); }', 'at'),
+                ('loop[vector]:body_start', 'proof { let k = it.index@; assert(*e == v@[k]); }', 'at')],
+         loops={'list': dict(head=r'in s\.iter\(\)', iter_name='it', invariant=[('words_of_the_elements_so_far', SLICE_IT % dict(v='s') +
+                        ' && (dict_free(a0) ==> state.hlog() == log0 + seq![HWord::U8(3), HWord::Usize(s@.len() as usize)] + list_words(a0, it.index@ as nat))')]),
+                'dict': dict(head=r'd\.iter\(\)', iter_name='it', invariant=[('entries_are_hashable', 'it.iter.obeys_prophetic_iter_laws() && (forall|i: int| 0 <= i < it.seq().len() ==> hashable((#[trigger] it.seq()[i]).0.0) && '
+                        'hashable(*it.seq()[i].1) && dict_contains_key(**d, *it.seq()[i].0) && dict_contains_value(**d, *it.seq()[i].1))')]),
+                'vector': dict(head=r'in v\.iter\(\)', iter_name='it', invariant=[('words_of_the_numbers_so_far', SLICE_IT % dict(v='v') +
+                        ' && state.hlog() == log0 + seq![HWord::U8(5), HWord::Usize(v@.len() as usize)] + vec_words(v@, it.index@ as nat)')])},
+         props=['C09']),
 ]
